@@ -11,6 +11,7 @@ use crate::{
 use any_spawner::Executor;
 use futures::StreamExt;
 use or_poisoned::OrPoisoned;
+use send_wrapper::SendWrapper;
 use std::{
     mem,
     sync::{atomic::AtomicBool, Arc, RwLock},
@@ -105,9 +106,54 @@ fn effect_base() -> (Receiver, Owner, Arc<RwLock<EffectInner>>) {
         dirty: true,
         observer,
         sources: SourceSet::new(),
+        release: None,
     }));
 
     (rx, owner, inner)
+}
+
+/// Registers what is to be released when the effect is disposed (see
+/// [`EffectInner::release`]).
+fn on_dispose(
+    inner: &Arc<RwLock<EffectInner>>,
+    release: impl FnOnce() + Send + Sync + 'static,
+) {
+    let mut inner = inner.write().or_poisoned();
+    let prev = inner.release.take();
+    inner.release = Some(Box::new(move || {
+        if let Some(prev) = prev {
+            prev();
+        }
+        release();
+    }));
+}
+
+/// Drops the value kept from the last run.
+fn take_value<T>(value: &RwLock<Option<T>>) {
+    let taken = value.write().ok().and_then(|mut value| value.take());
+    drop(taken);
+}
+
+/// The task of a disposed effect lets go of the value of its last run at once.
+fn release_on_dispose<T: Send + Sync + 'static>(
+    inner: &Arc<RwLock<EffectInner>>,
+    value: &Arc<RwLock<Option<T>>>,
+) {
+    let value = Arc::clone(value);
+    on_dispose(inner, move || take_value(&value));
+}
+
+/// The same for a value that may only be touched on the thread the effect was created on.
+fn release_on_dispose_local<T: 'static>(
+    inner: &Arc<RwLock<EffectInner>>,
+    value: &Arc<RwLock<Option<T>>>,
+) {
+    let value = SendWrapper::new(Arc::clone(value));
+    on_dispose(inner, move || {
+        if value.valid() {
+            take_value(&value);
+        }
+    });
 }
 
 thread_local! {
@@ -162,6 +208,7 @@ impl Effect<LocalStorage> {
         let inner = cfg!(feature = "effects").then(|| {
             let (mut rx, owner, inner) = effect_base();
             let value = Arc::new(RwLock::new(None::<T>));
+            release_on_dispose_local(&inner, &value);
             let mut first_run = true;
 
             Executor::spawn_local({
@@ -314,6 +361,8 @@ impl Effect<LocalStorage> {
             let mut first_run = true;
             let dep_value = Arc::new(RwLock::new(None::<D>));
             let watch_value = Arc::new(RwLock::new(None::<T>));
+            release_on_dispose_local(&inner, &dep_value);
+            release_on_dispose_local(&inner, &watch_value);
 
             Executor::spawn_local({
                 let dep_value = Arc::clone(&dep_value);
@@ -399,6 +448,7 @@ impl Effect<SyncStorage> {
         let (mut rx, owner, inner) = effect_base();
         let mut first_run = true;
         let value = Arc::new(RwLock::new(None::<T>));
+        release_on_dispose(&inner, &value);
 
         let task = {
             let value = Arc::clone(&value);
@@ -451,6 +501,8 @@ impl Effect<SyncStorage> {
         let mut first_run = true;
         let dep_value = Arc::new(RwLock::new(None::<D>));
         let watch_value = Arc::new(RwLock::new(None::<T>));
+        release_on_dispose(&inner, &dep_value);
+        release_on_dispose(&inner, &watch_value);
 
         let inner = cfg!(feature = "effects").then(|| {
             crate::spawn({
